@@ -63,6 +63,7 @@ def main(argv):
     ids = props = None
     jobs = 16
     verbose = False
+    index = False
     i = 0
     while i < len(argv):
         if argv[i] == '--ids':
@@ -76,6 +77,9 @@ def main(argv):
             i += 2
         elif argv[i] == '-v':
             verbose = True
+            i += 1
+        elif argv[i] == '--index':
+            index = True
             i += 1
         else:
             i += 1
@@ -102,6 +106,23 @@ def main(argv):
           '(%d false VIOLATION exits, %d analysis refusals), %d skipped (patch does not apply)'
           % (len(per_patch), len(props or allprops), time.time() - t0, silent, len(per_patch) - silent,
              sum(1 for r in bad if r[2] == 1), sum(1 for r in bad if r[2] == 2), len(skipped)))
+    if index and not ids and not props:
+        lines = ['# Independent behaviour-preserving refactorings (specificity corpus)', '',
+                 'Written by sub-agents given only the property text and a scratch worktree; see DESIGN.md section 12.2.',
+                 'Regenerate with `python3 -m selftest.benign_patches --index`. Verdict = checks that did not exit 0',
+                 '(1 = false VIOLATION, 2 = refusal); empty = all %d checks silent.' % len(allprops), '',
+                 '| patch | what it restructures | non-silent checks |', '|---|---|---|']
+        for pid in sorted(per_patch):
+            note = ''
+            try:
+                note = open(os.path.join(BENIGN_DIR, pid, 'notes.md'), encoding='utf-8').read().strip().splitlines()[0][:160]
+            except OSError:
+                pass
+            fails = ' '.join('%s=%d' % (p_, c) for p_, c, _ in per_patch[pid] if c != 0)
+            lines.append('| %s | %s | %s |' % (pid, note.replace('|', '/'), fails))
+        for pid in sorted(skipped):
+            lines.append('| %s | (patch does not apply to the current HEAD) | skipped |' % pid)
+        open(os.path.join(BENIGN_DIR, 'INDEX.md'), 'w', encoding='utf-8').write('\n'.join(lines) + '\n')
     return 1 if bad else 0
 
 
